@@ -53,8 +53,10 @@ package federation
 //@   # the outgoing list is built in storage of its own: the caller's credentials
 //@   # (shared by all remotes of a fan-out, and by later calls for the same
 //@   # request context) are never overwritten with tokens salted for one remote
-//@   modifies fresh(mem:string) except(mem:string)
-//@   ensures result1 == nil && len(result0) > 0 ==> arr(result0) != arr(incoming.Tokens)
+//@   ghost tk []string = nil
+//@   at assign incoming#1: set tk = incoming.Tokens
+//@   loop 1: invariant allocated(tk) && (cap(tokens) > 0 ==> arr(tokens) != arr(tk))
+//@   ensures result1 == nil && len(result0) > 0 ==> arr(result0) != arr(tk)
 
 // ------------------------------------------------------------------- C18
 //@ iface backend.CollectionGet
